@@ -67,6 +67,10 @@ func accepted(e eco.Eco, s string) bool {
 
 // mutateOnce applies one structural edit to v.
 func mutateOnce(t *rapid.T, e eco.Eco, v, l string) string {
+	if len(v) < 24 && Chance(t, l+"lengthen", 1, 40) {
+		// a long tail (up to about 300 characters): later edits then differ behind a long common prefix
+		return lengthenUpTo(t, e, v, l+"len", 9)
+	}
 	toks := Tokens(v)
 	switch rapid.IntRange(0, 10).Draw(t, l+"op") {
 	case 10: // toggle a leading "v" (a prefix in some ecosystems, part of the version in others)
@@ -320,7 +324,12 @@ var lengthTargets = []int{32, 64, 100, 128, 200, 255, 256, 257, 300, 512, 1000, 
 // the trimmed text does not. It returns s unchanged when no extension is
 // accepted by the ecosystem.
 func Lengthen(t *rapid.T, e eco.Eco, s, l string) string {
-	target := lengthTargets[rapid.IntRange(0, len(lengthTargets)-1).Draw(t, l+"T")] - rapid.IntRange(0, 3).Draw(t, l+"d")
+	return lengthenUpTo(t, e, s, l, len(lengthTargets))
+}
+
+// lengthenUpTo is Lengthen restricted to the first n length targets.
+func lengthenUpTo(t *rapid.T, e eco.Eco, s, l string, n int) string {
+	target := lengthTargets[rapid.IntRange(0, n-1).Draw(t, l+"T")] - rapid.IntRange(0, 3).Draw(t, l+"d")
 	if len(s)+2 >= target {
 		return s
 	}
